@@ -15,10 +15,28 @@ use std::{
 use crate::io::{FatPage, IoCommand, IoHandle, IoKind};
 
 pub(super) fn write_wal(mut wal_fd: &File, wal_blob: &[u8]) -> std::io::Result<()> {
+    #[cfg(feature = "verif")]
+    crate::verif::io::before_fd(wal_fd.as_raw_fd(), crate::verif::io::Kind::SetLen(0))?;
     wal_fd.set_len(0)?;
+    #[cfg(feature = "verif")]
+    crate::verif::io::after();
     wal_fd.seek(SeekFrom::Start(0))?;
+    #[cfg(feature = "verif")]
+    crate::verif::io::before_fd(
+        wal_fd.as_raw_fd(),
+        crate::verif::io::Kind::Write {
+            off: 0,
+            data: wal_blob.to_vec(),
+        },
+    )?;
     wal_fd.write_all(wal_blob)?;
+    #[cfg(feature = "verif")]
+    crate::verif::io::after();
+    #[cfg(feature = "verif")]
+    crate::verif::io::before_fd(wal_fd.as_raw_fd(), crate::verif::io::Kind::Fsync)?;
     wal_fd.sync_all()?;
+    #[cfg(feature = "verif")]
+    crate::verif::io::after();
     Ok(())
 }
 
@@ -26,10 +44,18 @@ pub(super) fn write_wal(mut wal_fd: &File, wal_blob: &[u8]) -> std::io::Result<(
 ///
 /// Conditionally syncs the file to disk.
 pub(super) fn truncate_wal(mut wal_fd: &File, do_sync: bool) -> std::io::Result<()> {
+    #[cfg(feature = "verif")]
+    crate::verif::io::before_fd(wal_fd.as_raw_fd(), crate::verif::io::Kind::SetLen(0))?;
     wal_fd.set_len(0)?;
+    #[cfg(feature = "verif")]
+    crate::verif::io::after();
     wal_fd.seek(SeekFrom::Start(0))?;
     if do_sync {
+        #[cfg(feature = "verif")]
+        crate::verif::io::before_fd(wal_fd.as_raw_fd(), crate::verif::io::Kind::Fsync)?;
         wal_fd.sync_all()?;
+        #[cfg(feature = "verif")]
+        crate::verif::io::after();
     }
     Ok(())
 }
@@ -57,7 +83,11 @@ pub(super) fn write_ht(
         sent -= 1;
     }
 
+    #[cfg(feature = "verif")]
+    crate::verif::io::before_fd(ht_fd.as_raw_fd(), crate::verif::io::Kind::Fsync)?;
     ht_fd.sync_all()?;
+    #[cfg(feature = "verif")]
+    crate::verif::io::after();
 
     Ok(())
 }
